@@ -279,16 +279,20 @@ impl MtState {
             if (w >> 32) == 0 {
                 return match self.marks.get(&(next as usize)) {
                     Some((_, Some(true))) => "stale-unlink",
-                    // a mark whose owner lost its unlink CAS: the repaired defect F2 - unless a removal mark was wiped
-                    // by a blind store earlier in this run (a thread acts on a stale claim), which is the known family
-                    _ if !self.mark_wiped.is_empty() => "stale-unlink",
+                    // a mark whose owner lost its unlink CAS: the repaired defect F2 - unless, earlier in this run, a
+                    // removal mark was wiped by a blind store or a CAS succeeded on a word that had been changed and
+                    // changed back (a thread acts on a stale claim), which is the known family
+                    _ if !self.mark_wiped.is_empty() || !self.aba.is_empty() => "stale-unlink",
                     _ => "mark-not-undone",
                 };
             }
             next = w as u32;
             n += 1;
         }
-        if !self.mark_wiped.is_empty() {
+        // the list is well formed and the spinners walk nodes outside it: after a CAS that succeeded on a word which
+        // had been changed and changed back (nodes dropped out of the list, chains of unlinked nodes that form a
+        // cycle) or after a wiped removal mark this is the known stale-claim family; otherwise the repaired F1
+        if !self.mark_wiped.is_empty() || !self.aba.is_empty() {
             return "stale-unlink";
         }
         "spin-on-unlinked"
